@@ -16,7 +16,7 @@ with the real code generator's bytecode on every case, not proved; the leaves of
 (`+` on integers is wrapping 64-bit addition, …) are the VM model's instruction semantics, which
 C04's correspondence ties to vm.go. -/
 namespace MtailVerif.C01
-open MtailVerif MtailVerif.VM MtailVerif.IR
+open MtailVerif MtailVerif.VM MtailVerif.IR MtailVerif.Lower MtailVerif.Ast
 
 /-- **Compiler correctness (core language).**  For every program outside the two
     `otherwise`/`else` shapes, every line, every metric store, every strptime memo and every
@@ -37,6 +37,127 @@ theorem error_keeps_effects_made_before (o : Oracle) (p : Prog) (inp : Input) (s
     (h2 : execSs o p inp ss c' fl' = .halt out st memo) :
     execSs o p inp (.cons s ss) c fl = .halt out st memo := by
   rw [execSs, h1]; simpa [SR.andThen] using h2
+
+/-! ### the operator table
+
+The theorem above takes a primitive's meaning from the VM model.  What the *source* operators mean
+is fixed here independently (64-bit wrapping integer arithmetic with Go's truncated division,
+the library's float arithmetic, two's-complement bit operations, the usual order on integers), and
+the opcode and branch polarity that `Lower` picks from codegen.go's tables are proved to compute
+exactly that on operands of the operator's type — so an operator mapped to the wrong opcode, a
+comparison with the wrong operand or the wrong jump, would break a proof here. -/
+
+/-- what the binary operators of the language mean on two 64-bit integers -/
+def intOp (o : Oracle) : Op → Int → Int → Except RtErr Int
+  | .plus, x, y => .ok (wrap (x + y))
+  | .minus, x, y => .ok (wrap (x - y))
+  | .mul, x, y => .ok (wrap (x * y))
+  | .div, x, y => if y = 0 then .error .divByZero else .ok (wrap (Int.tdiv x y))
+  | .mod, x, y => if y = 0 then .error .divByZero else .ok (Int.tmod x y)
+  | .pow, x, y => .ok (o.f2i (o.fpow (o.i2f x) (o.i2f y)))
+  | _, _, _ => .error .arity
+
+def litI (x : Int) : E := .prim [⟨.push, .i64 x⟩] .nil
+
+def pushV (v : Val) (c : Cfg) : Cfg := ⟨{ c.t with stack := v :: c.t.stack }, c.st, c.memo⟩
+
+theorem int_operator_table (o : Oracle) (p : Prog) (inp : Input) (c : Cfg) (hc : norm c.t = c.t) (x y : Int) (oc : Opcode)
+    (op : Op) (hop : op = .plus ∨ op = .minus ∨ op = .mul ∨ op = .div ∨ op = .mod ∨ op = .pow)
+    (h : typedOp op .int = some oc) :
+    evalE o p inp (.prim [i0 oc] (.cons (litI x) (.cons (litI y) .nil))) c =
+      match intOp o op x y with
+      | .ok r => .ok (pushV (.i64 r) c)
+      | .error e => .halt (.err e) c.st c.memo := by
+  obtain ⟨t, st, memo⟩ := c
+  obtain ⟨pc, m, caps, time, stack, dead⟩ := t
+  simp only [norm] at hc
+  injection hc with h1 h2
+  subst h1 h2
+  by_cases hy : y = 0 <;>
+  rcases hop with rfl | rfl | rfl | rfl | rfl | rfl <;> simp [typedOp, Ty.root] at h <;> subst h <;>
+    simp [evalE, evalEs, litI, R.bind, runPrim, afterStep, step, stepCore, popInt, P.andThen, binInt, norm, i0,
+      intOp, pushV, hy]
+
+def floatOp (o : Oracle) : Op → UInt64 → UInt64 → Option UInt64
+  | .plus, a, b => some (o.fadd a b)
+  | .minus, a, b => some (o.fsub a b)
+  | .mul, a, b => some (o.fmul a b)
+  | .div, a, b => some (o.fdiv a b)
+  | .mod, a, b => some (o.fmod a b)
+  | .pow, a, b => some (o.fpow a b)
+  | _, _, _ => none
+
+def litF (b : UInt64) : E := .prim [⟨.push, .f64 b⟩] .nil
+
+theorem float_operator_table (o : Oracle) (p : Prog) (inp : Input) (c : Cfg) (hc : norm c.t = c.t) (a b : UInt64)
+    (oc : Opcode) (op : Op) (hop : op ≠ .assign) (h : typedOp op .float = some oc) :
+    ∃ r, floatOp o op a b = some r ∧
+      evalE o p inp (.prim [i0 oc] (.cons (litF a) (.cons (litF b) .nil))) c = .ok (pushV (.f64 r) c) := by
+  obtain ⟨t, st, memo⟩ := c
+  obtain ⟨pc, m, caps, time, stack, dead⟩ := t
+  simp only [norm] at hc
+  injection hc with h1 h2
+  subst h1 h2
+  cases op <;> simp [typedOp, Ty.root] at h <;> (try (exact absurd rfl hop)) <;> subst h <;>
+    simp [evalE, evalEs, litF, R.bind, runPrim, afterStep, step, stepCore, popFloat, P.andThen, binFloat, norm, i0,
+      floatOp, pushV]
+
+/-- bitwise operators and shifts on 64-bit integers -/
+def bitOp : Op → Int → Int → Except RtErr Int
+  | .bitand, x, y => .ok (BitVec.ofInt 64 x &&& BitVec.ofInt 64 y).toInt
+  | .bitor, x, y => .ok (BitVec.ofInt 64 x ||| BitVec.ofInt 64 y).toInt
+  | .xor, x, y => .ok (BitVec.ofInt 64 x ^^^ BitVec.ofInt 64 y).toInt
+  | .shl, x, y => if y < 0 ∨ y ≥ 2147483647 then .error .shiftOutOfRange
+                  else .ok (if y ≥ 64 then 0 else wrap (x * 2 ^ y.toNat))
+  | .shr, x, y => if y < 0 ∨ y ≥ 2147483647 then .error .shiftOutOfRange
+                  else .ok (if y ≥ 64 then (if x < 0 then -1 else 0) else x / 2 ^ y.toNat)
+  | _, _, _ => .error .arity
+
+theorem bit_operator_table (o : Oracle) (p : Prog) (inp : Input) (c : Cfg) (hc : norm c.t = c.t) (x y : Int)
+    (oc : Opcode) (op : Op) (h : bitOpcode op = some oc) :
+    evalE o p inp (.prim [i0 oc] (.cons (litI x) (.cons (litI y) .nil))) c =
+      match bitOp op x y with
+      | .ok r => .ok (pushV (.i64 r) c)
+      | .error e => .halt (.err e) c.st c.memo := by
+  obtain ⟨t, st, memo⟩ := c
+  obtain ⟨pc, m, caps, time, stack, dead⟩ := t
+  simp only [norm] at hc
+  injection hc with h1 h2
+  subst h1 h2
+  by_cases hy : (y < 0 ∨ y ≥ 2147483647) <;>
+  cases op <;> simp [bitOpcode] at h <;> subst h <;>
+    simp [evalE, evalEs, litI, R.bind, runPrim, afterStep, step, stepCore, popInt, P.andThen, binInt, norm, i0,
+      bitOp, pushV, hy]
+
+/-- `~x` is the bitwise complement -/
+theorem not_operator (o : Oracle) (p : Prog) (inp : Input) (c : Cfg) (hc : norm c.t = c.t) (x : Int) :
+    evalE o p inp (.prim [i0 .neg] (.cons (litI x) .nil)) c = .ok (pushV (.i64 (-x - 1)) c) := by
+  obtain ⟨t, st, memo⟩ := c
+  obtain ⟨pc, m, caps, time, stack, dead⟩ := t
+  simp only [norm] at hc
+  injection hc with h1 h2
+  subst h1 h2
+  simp [evalE, evalEs, litI, R.bind, runPrim, afterStep, step, stepCore, popInt, P.andThen, norm, i0, pushV]
+
+/-- the truth value of a comparison of two integers -/
+def cmpMeaning : Op → Int → Int → Bool
+  | .lt, x, y => decide (x < y) | .gt, x, y => decide (x > y) | .le, x, y => decide (x ≤ y)
+  | .ge, x, y => decide (x ≥ y) | .eq, x, y => decide (x = y) | .ne, x, y => decide (x ≠ y)
+  | _, _, _ => false
+
+theorem int_comparison_table (o : Oracle) (p : Prog) (inp : Input) (c : Cfg) (hc : norm c.t = c.t) (x y : Int)
+    (op : Op) (arg : Int) (jm : Bool) (h : cmpCode op = some (arg, jm)) :
+    evalE o p inp (.cmp (iN .icmp arg) jm (litI x) (litI y)) c = .ok (pushV (.bool (cmpMeaning op x y)) c) := by
+  obtain ⟨t, st, memo⟩ := c
+  obtain ⟨pc, m, caps, time, stack, dead⟩ := t
+  simp only [norm] at hc
+  injection hc with h1 h2
+  subst h1 h2
+  cases op <;> simp [cmpCode] at h <;> obtain ⟨rfl, rfl⟩ := h <;>
+    simp [evalE, evalEs, litI, R.bind, runPrim, afterStep, step, stepCore, popInt, P.andThen, norm, iN, branch, taken,
+      cmpInt, argInt, pushB, pushV, cmpMeaning]
+  · by_cases h : y < x <;> simp [h] <;> omega
+  · by_cases h : x < y <;> simp [h] <;> omega
 
 /-! ### the excluded shapes deviate: a concrete program (known finding)
 
